@@ -267,6 +267,7 @@ impl PhoneticSuggestion {
                     if let Some(base) = selections.get(key) {
                         let rmc = base.chars().last().unwrap_or_default();
                         let suffix_lmc = suffix.chars().next().unwrap_or_default();
+                        selected.clear();
                         selected.push_str(base);
 
                         match rmc {
